@@ -726,6 +726,37 @@ func genC02Long(w *World, r *Rng, tier string) {
 	}
 }
 
+// channel views follow their parent when a growing Append moves it to new storage
+func genC14Moved(w *World, r *Rng, tier string) {
+	reps := 6
+	if tier == "thorough" {
+		reps = 60
+	}
+	for rep := 0; rep < reps; rep++ {
+		k := r.Kind()
+		ch := r.Range(1, 4)
+		K := r.Range(1, 4)
+		w.Case(fmt.Sprintf("C14 moved %s ch%d K%d", k, ch, K))
+		v := w.Alloc(k, false, ch, K, K)
+		fillAll(w, v, 5)
+		for c := 0; c < ch; c++ {
+			w.ChanShape(v, c)
+			w.ChanGet(v, c, 0)
+		}
+		src := w.Alloc(k, false, ch, 2, 2)
+		fillAll(w, src, 60)
+		w.Append(v, src) // full: grows, the parent header now points at new storage
+		for c := 0; c < ch; c++ {
+			w.ChanShape(v, c)
+			for i := 0; i < w.views[v].Length(); i++ {
+				w.ChanGet(v, c, i)
+			}
+			w.ChanSet(v, c, w.views[v].Length()-1, small(k, 70+c))
+			w.ChanGet(v, c, w.views[v].Length()-1)
+		}
+	}
+}
+
 // the sign of zero through channel views (a store skipped when old and new compare equal loses it)
 func genC14Zeros(w *World, r *Rng, tier string) {
 	for _, k := range []Kind{F32, F64} {
@@ -1089,6 +1120,29 @@ func genC13(w *World, r *Rng, tier string) {
 			}
 		}
 	}
+	// a window outlives its parent header: collections (and finalizers) must leave it alone, and later
+	// allocations of the same size must not share its storage
+	for rep := 0; rep < 4; rep++ {
+		k := r.Kind()
+		ch := r.Range(1, 3)
+		K := r.Range(2, 6)
+		w.Case(fmt.Sprintf("C13 window outlives parent %s ch%d K%d", k, ch, K))
+		parent := w.Alloc(k, false, ch, K, K)
+		fillAll(w, parent, 20)
+		win := w.Slice(parent, 1, K)
+		w.Drop(parent)
+		w.GC()
+		for i := 0; i < 3; i++ {
+			n := w.Alloc(k, false, ch, K, K)
+			if n >= 0 && w.views[n].Len() > 0 {
+				w.Set(n, 0, small(k, 50+i))
+			}
+		}
+		w.GC()
+		if win >= 0 && w.views[win].Len() > 0 {
+			w.Get(win, 0)
+		}
+	}
 	// channel counts around the widths a narrower header field would have
 	for _, C := range []int{255, 256, 257, 32767, 32768, 65535, 65536, 65537, 1 << 20, 1<<31 - 1, 1 << 31, 1<<32 + 2, 1<<40 + 1} {
 		k := r.Kind()
@@ -1218,6 +1272,31 @@ func genC15(w *World, r *Rng, tier string) {
 					cols2[i] = valsFor(r, sk, sk, 2)
 				}
 				w.ReadStriped(d, sk, cols2)
+			}
+		}
+		// mismatching counts made of nil and empty slices (they carry no data, but they count)
+		for ch := 1; ch <= 3; ch++ {
+			for _, extra := range []int{1, 2} {
+				sk, dk := r.Kind(), r.Kind()
+				w.Case(fmt.Sprintf("C15 striped nil tail ch%d +%d", ch, extra))
+				d := w.Alloc(dk, false, ch, 2, 3)
+				fillAll(w, d, 5)
+				cols := make([][]uint64, ch+extra)
+				cols2 := make([][]uint64, ch+extra)
+				for i := 0; i < ch; i++ {
+					cols[i] = valsFor(r, sk, dk, 2)
+					cols2[i] = valsFor(r, sk, sk, 2)
+				}
+				if extra == 2 {
+					cols[ch] = []uint64{}
+					cols2[ch] = []uint64{}
+				}
+				w.WriteStriped(d, sk, cols)
+				w.ReadStriped(d, sk, cols2)
+				// one slice short, the rest nil
+				short := make([][]uint64, ch-1)
+				w.WriteStriped(d, sk, short)
+				w.ReadStriped(d, sk, short)
 			}
 		}
 		// the same with many slices and many channels (fast paths for wide buffers)
